@@ -1,4 +1,4 @@
-/-! Skeleton: tempfile_decorator + worker pipeline as a fault-injectable machine (C13),
+/-! Skeleton + proofs: tempfile_decorator + worker pipeline as a fault-injectable machine (C13),
     seed-sequence spawning (C10). Core Lean only. -/
 namespace Cache
 
@@ -25,31 +25,87 @@ def apply (s : St) : Step → St
   | .openUser _ .rw => { s with userWritten := true }
   | _ => s
 
-/-- the decorated call on an in-memory library: `pre` steps, then `inner` (the wrapped
-function's steps, arbitrary), and the `finally` clause. A fault at position `k` cuts the
-try-block after `k` steps; the finally clause always runs. -/
+/-- a fault at position `k` cuts the try-block after `k` steps -/
+def cut : Option Nat → List Step → List Step
+  | none, l => l
+  | some k, l => l.take k
+
+theorem mem_cut {fault : Option Nat} {l : List Step} {st : Step} (h : st ∈ cut fault l) : st ∈ l := by
+  cases fault with
+  | none => exact h
+  | some k => exact List.mem_of_mem_take h
+
+/-- the decorated call on an in-memory library; the finally clause always runs -/
 def objectCall (f : Nat) (inner : List Step) (fault : Option Nat) : St × Bool :=
-  let tryBlock := Step.writeTemp f :: inner
-  let executed := match fault with | none => tryBlock | some k => tryBlock.take k
-  let s := (Step.mkTemp f :: executed).foldl apply {}
+  let s := (cut fault (Step.writeTemp f :: inner)).foldl apply (apply {} (.mkTemp f))
   (apply s (.unlink f), fault.isSome)     -- (final state, exception propagated?)
 
 def fileCall (inner : List Step) (fault : Option Nat) : St × Bool :=
-  let executed := match fault with | none => inner | some k => inner.take k
-  (executed.foldl apply {}, fault.isSome)
+  ((cut fault inner).foldl apply {}, fault.isSome)
+
+def StepOK (st : Step) : Prop :=
+  (∀ f, st ≠ .mkTemp f) ∧ (∀ f, st ≠ .unlink f) ∧ (∀ p, st ≠ .openUser p .rw)
 
 /-- well-formed inner traces: never create or delete temp files, never open the user file rw -/
-def InnerOK (inner : List Step) : Prop :=
-  ∀ st ∈ inner, (∀ f, st ≠ .mkTemp f) ∧ (∀ f, st ≠ .unlink f) ∧ (∀ p, st ≠ .openUser p .rw)
+def InnerOK (inner : List Step) : Prop := ∀ st ∈ inner, StepOK st
 
+theorem apply_ok (s : St) (st : Step) (h : StepOK st) : apply s st = s := by
+  obtain ⟨h1, h2, h3⟩ := h
+  cases st with
+  | mkTemp f => exact absurd rfl (h1 f)
+  | unlink f => exact absurd rfl (h2 f)
+  | openUser p m =>
+    cases m with
+    | ro => rfl
+    | rw => exact absurd rfl (h3 p)
+  | writeTemp f => rfl
+  | openTemp f m => rfl
+  | body l => rfl
+
+theorem foldl_ok (steps : List Step) (h : ∀ st ∈ steps, StepOK st) (s : St) : steps.foldl apply s = s := by
+  induction steps generalizing s with
+  | nil => rfl
+  | cons st rest ih =>
+    simp only [List.foldl_cons]
+    rw [apply_ok s st (h st List.mem_cons_self)]
+    exact ih (fun x hx => h x (List.mem_cons_of_mem _ hx)) s
+
+theorem tryBlock_ok (f : Nat) (inner : List Step) (h : InnerOK inner) (fault : Option Nat) :
+    ∀ st ∈ cut fault (Step.writeTemp f :: inner), StepOK st := by
+  intro st hst
+  rcases List.mem_cons.mp (mem_cut hst) with rfl | hin
+  · exact ⟨fun g => by simp, fun g => by simp, fun p => by simp⟩
+  · exact h st hin
+
+/-- C13: no temporary file survives, whatever the fault position -/
 theorem no_leak (f : Nat) (inner : List Step) (h : InnerOK inner) (fault : Option Nat) :
-    (objectCall f inner fault).1.tmp = [] := by sorry
+    (objectCall f inner fault).1.tmp = [] := by
+  unfold objectCall
+  simp only
+  rw [foldl_ok _ (tryBlock_ok f inner h fault)]
+  simp [apply]
 
 theorem exception_propagates (f : Nat) (inner : List Step) (fault : Option Nat) :
     (objectCall f inner fault).2 = fault.isSome := rfl
 
 theorem user_file_untouched (f : Nat) (inner : List Step) (h : InnerOK inner) (fault : Option Nat) :
-    (objectCall f inner fault).1.userWritten = false ∧ (fileCall inner fault).1.userWritten = false := by sorry
+    (objectCall f inner fault).1.userWritten = false ∧ (fileCall inner fault).1.userWritten = false := by
+  constructor
+  · unfold objectCall
+    simp only
+    rw [foldl_ok _ (tryBlock_ok f inner h fault)]
+    simp [apply]
+  · unfold fileCall
+    simp only
+    rw [foldl_ok _ (fun st hst => h st (mem_cut hst))]
+
+/-- the post-state of a call equals the pre-state: the next call starts clean -/
+theorem next_call_clean (f : Nat) (inner : List Step) (h : InnerOK inner) (fault : Option Nat) :
+    (objectCall f inner fault).1 = {} := by
+  unfold objectCall
+  simp only
+  rw [foldl_ok _ (tryBlock_ok f inner h fault)]
+  simp [apply]
 
 end Cache
 
@@ -73,8 +129,58 @@ def history (s : SeedSeq) : List Nat → SeedSeq × List SeedSeq
     let (s'', rest) := history s' ms
     (s'', kids ++ rest)
 
+theorem history_key_form (ms : List Nat) : ∀ (s : SeedSeq),
+    (∀ c ∈ (history s ms).2, ∃ j, s.nSpawned ≤ j ∧ c.key = s.key ++ [j]) ∧
+    ((history s ms).2.map (·.key)).Nodup := by
+  induction ms with
+  | nil => intro s; simp [history]
+  | cons m ms ih =>
+    intro s
+    obtain ⟨ihform, ihnd⟩ := ih { s with nSpawned := s.nSpawned + m }
+    simp only [history, spawn] at ihform ihnd ⊢
+    refine ⟨?_, ?_⟩
+    · intro c hc
+      rcases List.mem_append.mp hc with hk | hr
+      · obtain ⟨i, _, rfl⟩ := List.mem_map.mp hk
+        exact ⟨s.nSpawned + i, Nat.le_add_right _ _, rfl⟩
+      · obtain ⟨j, hj, hkey⟩ := ihform c hr
+        exact ⟨j, Nat.le_trans (Nat.le_add_right _ _) hj, hkey⟩
+    · rw [List.map_append, List.nodup_append]
+      refine ⟨?_, ihnd, ?_⟩
+      · rw [List.map_map]
+        show List.Pairwise (· ≠ ·) _
+        rw [List.pairwise_map]
+        refine (List.nodup_range (n := m)).imp ?_
+        intro a b hab h
+        simp only [Function.comp] at h
+        have := List.append_cancel_left h
+        simp at this
+        exact hab this
+      · intro k1 hk1 k2 hk2
+        obtain ⟨c1, hc1, rfl⟩ := List.mem_map.mp hk1
+        obtain ⟨i, hi, rfl⟩ := List.mem_map.mp hc1
+        obtain ⟨c2, hc2, rfl⟩ := List.mem_map.mp hk2
+        obtain ⟨j, hj, hkey⟩ := ihform c2 hc2
+        rw [hkey]
+        intro h
+        have := List.append_cancel_left h
+        simp at this
+        have hj' : s.nSpawned + m ≤ j := hj
+        have hi' := List.mem_range.mp hi
+        omega
+
+/-- C10: all spawn keys handed out over any history are pairwise distinct and differ from the parent's -/
 theorem spawned_keys_distinct (s : SeedSeq) (ms : List Nat) :
-    ((history s ms).2.map (·.key)).Nodup ∧ ∀ c ∈ (history s ms).2, c.key ≠ s.key := by sorry
+    ((history s ms).2.map (·.key)).Nodup ∧ ∀ c ∈ (history s ms).2, c.key ≠ s.key := by
+  obtain ⟨hform, hnd⟩ := history_key_form ms s
+  refine ⟨hnd, ?_⟩
+  intro c hc h
+  obtain ⟨j, _, hkey⟩ := hform c hc
+  rw [hkey] at h
+  have := congrArg List.length h
+  simp at this
 end Rng
 #eval (Rng.history ⟨42, [], 0⟩ [2, 3]).2.map (·.key)
 #eval Cache.objectCall 1 [.openTemp 1 .ro, .body "read_batch", .body "pool.map"] (some 2)
+#print axioms Cache.no_leak
+#print axioms Rng.spawned_keys_distinct
